@@ -17,22 +17,24 @@ TARGETS = {
     "c13_block3": dict(src="props/c13_block.cpp", flags=["-DC13_B=3", _H], flavors=["gcc", "asan"], asan_div=5),
     "c13_block4": dict(src="props/c13_block.cpp", flags=["-DC13_B=4", _H], flavors=["gcc", "asan"], asan_div=5),
     "c13_eigen": dict(src="props/c13_eigen.cpp", flags=[_H], flavors=["gcc", "asan"], asan_div=5),
-    "c13_complex_mixed": dict(src="props/c13_complex_mixed.cpp", flags=[_H], flavors=["gcc", "asan"], asan_div=5),
+    "c13_complex": dict(src="props/c13_complex.cpp", flags=[_H], flavors=["gcc", "asan"], asan_div=5),
+    "c13_mixed": dict(src="props/c13_mixed.cpp", flags=[_H], flavors=["gcc", "asan"], asan_div=5),
 }
 
 PROPS = {
     "C13": dict(
-        targets=["c13_block2", "c13_block3", "c13_block4", "c13_eigen", "c13_complex_mixed"],
+        targets=["c13_block2", "c13_block3", "c13_block4", "c13_eigen", "c13_complex", "c13_mixed"],
         level="exploration",
         rule="tape-decoded systems. Block part (b=2,3,4; static_matrix and Eigen blocks): graph families path/grid2/grid2x9/grid3/er/tree/band/star/union with an SPD "
-             "M-matrix M (contrast<=10) expanded as M (x) I_b, M (x) B (B SPD, optionally with structural zeros) or a symmetric strictly diagonally dominant block-structured "
-             "matrix whose off-diagonal blocks carry random structural masks; every representation (adapter::block_matrix, crs<block>, block-valued tuple, unblock_matrix, "
+             "M-matrix M (contrast<=10) expanded as M (x) I_b, M (x) B (B SPD, optionally with structural zeros), a symmetric strictly diagonally dominant block-structured "
+             "M-matrix whose off-diagonal blocks carry random structural masks (kind 2), or the same with entries of both signs (kind 3: not a model problem, only truthfulness is asserted, "
+             "Krylov breakdown exceptions are tolerated); every representation (adapter::block_matrix, crs<block>, block-valued tuple, unblock_matrix, "
              "builtin_hybrid::copy_matrix, level-0 matrix of the hierarchies) is compared entry by entry (bitwise) and by SpMV (long double reference, bound c*u*sum|a||x|) with the "
              "scalar matrix; six formulations (block value type via adapter / via block tuple, make_block_solver 2- and 3-argument, coarsening::as_scalar, builtin_hybrid, "
              "relaxation::as_block) are solved and the true residual of the SCALAR system (long double) is compared with the reported one (two-sided, drift allowance "
-             "8(m+4)(k+1)u*||A||inf*||x||inf*sqrt(n)/||f||) and with the tolerance. Complex part: Hermitian PD (M-pattern + i*skew), shifted (Mmat + i*sigma*I) and Hermitian+imaginary-diagonal "
-             "systems: adapter::complex_matrix entries = [re -im; im re] bitwise, SpMV on complex_range views, builtin<complex> solution vs real-equivalent solution (both truthful on the "
-             "complex system, difference <= kappa_2*(2 tol + drift)). Mixed precision: amg<builtin<float>> under cg/bicgstab<builtin<double>> with default tol 1e-8, called solve(A_double,f,x), on "
+             "8(m+4)(k+1)u*||A||inf*||x||inf*sqrt(n)/||f||) and, on the model kinds 0-2, with the tolerance (1e-8 / 1e-6, maxiter 1000). Complex part: Hermitian PD (M-pattern + i*skew), shifted (Mmat + i*sigma*I, |sigma| <= min a_ii) and Hermitian+imaginary-diagonal (|Im a_ii| <= Re a_ii) "
+             "systems: adapter::complex_matrix entries = [re -im; im re] bitwise, SpMV on complex_range views, builtin<complex> solution (CG on the Hermitian kind, GMRES, or BiCGStab -- the latter without a convergence requirement) vs real-equivalent solution "
+             "(BiCGStab on adapter::complex_matrix with 2x2 point aggregates; both truthful on the complex system, difference <= kappa_2*(2 tol + drift)). Mixed precision: amg<builtin<float>> under cg/bicgstab<builtin<double>> with default tol 1e-8, called solve(A_double,f,x), on "
              "model problems (isotropic grids, bounded-degree graphs, contrast<=10, n<=3600, coarse_enough 3000/500/100). "
              "non-trivial: block case with at least one structurally incomplete block and >=2 block rows; complex case with non-zero imaginary diagonal and n>=2; mixed case with n>=2 and an off-diagonal. "
              "distinct = distinct decoded choice sequences (64-bit hash), united over shards.",
